@@ -1,1 +1,79 @@
+/* unit xml_tags: the token layer of xml::Parser (readAttributes, readComment, readCData, readEndTag, readStartOrEmptyTag, emitEof, next).
+ * The cursor layer below it is NOT re-verified here: calls are replaced by the contracts proved in unit xml_cursor
+ * (../xml_cursor/contracts.h, same text), with the per-call definitional ghosts substituted by their definitions. */
+#define XML_GHOST_INLINE
 #include "iora_xml.h"
+#include "../xml_cursor/contracts.h"
+
+/* ---- element stack: std::vector<std::string> as depth + witness entry at ghost level GL (type in iora_xml.h) ---- */
+static inline bool iora_strstack_empty(const iora_strstack *s) { return s->n == 0; }
+static inline void iora_strstack_clear(iora_strstack *s) { s->n = 0; }
+static inline void iora_strstack_pop_back(iora_strstack *s) { IORA_ASSERT(s->n > 0, "vector::pop_back() on an empty vector"); s->n--; }
+/* push_back(std::string(name)): the new entry is a copy of the slice `v` of the (immutable) input */
+static inline void iora_strstack_push_back_sv(iora_strstack *s, const iora_sv *in, iora_sv v)
+{
+  IORA_ASSERT(__CPROVER_same_object(v.p, in->p), "pushed name is a slice of the input");
+  if (s->n == GL) { s->wit_off = (size_t)__CPROVER_POINTER_OFFSET(v.p); s->wit_n = v.n; }
+  IORA_ASSERT(s->n < (size_t)-1, "vector growth");
+  s->n++;
+}
+/* back(): precondition only (the value is used for a diagnostic text) */
+static inline int iora_strstack_back(const iora_strstack *s) { IORA_ASSERT(s->n > 0, "vector::back() on an empty vector"); return 0; }
+static inline const char *iora_diag3(const char *a, int top, const char *b, iora_sv name, const char *c) { (void)a; (void)top; (void)b; (void)name; (void)c; return "diagnostic"; }
+static inline void iora_strstack_diag_all(const iora_strstack *s) { (void)s; }
+/* `_elementStack.back() != name` (std::string vs string_view): CONTENT comparison. The result is nondeterministic but, when the top is the
+ * witness entry, consistent with the contents: equal => same length and same byte at the arbitrary index GK; different => the lengths
+ * differ or some byte differs. (Assumptions of this shim = the meaning of operator!=; listed in trusted_base.) */
+size_t G_cmp_k;
+static inline bool iora_strstack_top_ne(const iora_strstack *s, const iora_sv *in, iora_sv name)
+{
+  IORA_ASSERT(s->n > 0, "vector::back() on an empty vector");
+  IORA_ASSERT(__CPROVER_same_object(name.p, in->p), "compared name is a slice of the input");
+  bool ne = nondet_bool();
+  if (s->n - 1 == GL)
+  {
+    size_t no = (size_t)__CPROVER_POINTER_OFFSET(name.p);
+    size_t k = nondet_size_t();
+    if (ne) { IORA_ASSUME(s->wit_n != name.n || (k < name.n && in->p[s->wit_off + k] != in->p[no + k])); }
+    else { IORA_ASSUME(s->wit_n == name.n && (GK >= name.n || in->p[s->wit_off + GK] == in->p[no + GK])); }
+  }
+  return ne;
+}
+
+/* ---- parser invariant of the token layer ----
+ * depth == stack size; depth <= maxDepth; each open element and each produced token consumed at least one byte (so neither counter can wrap);
+ * the witness entry is a non-empty slice of the input */
+#define XML_TAG_INV(s) ((s)->_depth == (s)->_elementStack.n && (s)->_depth <= (s)->_opt.maxDepth && (s)->_depth <= (s)->_cur && (s)->_producedTokens <= (s)->_cur \
+  && ((s)->_elementStack.n > GL ==> ((s)->_elementStack.wit_n >= 1 && (s)->_elementStack.wit_off <= (s)->_input.n && (s)->_elementStack.wit_n <= (s)->_input.n - (s)->_elementStack.wit_off)))
+#define XML_TAG_PRE(s) (XML_PRE(s) && XML_TAG_INV(s))
+/* content of a slice v of the input at index k, through the input pointer (slices returned by replaced contracts are only known by offset) */
+#define XML_SLICE_BYTE(s, v, k) XML_AT(s, (size_t)__CPROVER_POINTER_OFFSET((v).p) + (k))
+
+/* ---- callee contracts (replace) : conjunctions of groups proved in unit xml_cursor ---- */
+DECL_skipSpaces(Parser_skipSpaces_c, SKIP_SAFE)
+DECL_skipSpaces(Parser_skipWhitespaceOutsideText_c, SKIP_SAFE)
+DECL_match(Parser_matchString_c, MATCH_SAFE)
+DECL_match(Parser_matchWordCaseInsensitive_c, MATCH_SAFE)
+DECL_readName(Parser_readName_c, RNAME_SAFE)
+DECL_readUntil(Parser_readUntil_c, UNTIL_SAFE UNTIL_SLICE)
+DECL_readQuotedValue(Parser_readQuotedValue_c, RQV_SAFE RQV_SLICE)
+DECL_readText(Parser_readText_c, RTEXT_SAFE RTEXT_SLICE)
+void Parser_skipSpaces(Parser *self);
+void Parser_skipWhitespaceOutsideText(Parser *self);
+bool Parser_matchString(Parser *self, const char *s);
+bool Parser_matchWordCaseInsensitive(Parser *self, const char *s);
+iora_sv Parser_readName(Parser *self);
+bool Parser_readUntil(Parser *self, iora_sv endSeq, size_t *startOut, size_t *lenOut);
+bool Parser_readQuotedValue(Parser *self, iora_sv *out);
+bool Parser_readText(Parser *self, size_t startOffset, size_t startLine, size_t startCol);
+bool Parser_readProcessingInstruction(Parser *self, size_t startOffset, size_t startLine, size_t startCol);
+bool Parser_readDoctype(Parser *self, size_t startOffset, size_t startLine, size_t startCol);
+
+/* ---- loop contract: readAttributes. Each round consumes at least name + '=' + two quotes; the count is tested right after each push ---- */
+#define IORA_LOOP_Parser_readAttributes_1 IORA_LC( \
+  __CPROVER_assigns(self->_cur, self->_line, self->_col, self->_hasError, self->_error, attrs->n, attrs->gk) \
+  __CPROVER_loop_invariant(XML_CUR_INV(self) && self->_cur >= __CPROVER_loop_entry(self->_cur) && self->_hasError == __CPROVER_loop_entry(self->_hasError)) \
+  __CPROVER_loop_invariant(attrs->n <= self->_opt.maxAttrsPerElement && attrs->n <= self->_cur - __CPROVER_loop_entry(self->_cur)) \
+  __CPROVER_loop_invariant(GA < attrs->n ==> (XML_SLICE_IN(self, attrs->gk.name) && XML_SLICE_IN(self, attrs->gk.value) && attrs->gk.name.n >= 1 \
+       && attrs->gk.name.n <= self->_opt.maxNameLength && attrs->gk.value.n <= self->_opt.maxTextSpan)) \
+  __CPROVER_decreases(self->_input.n - self->_cur))
